@@ -12,8 +12,10 @@ import (
 	"flag"
 	"fmt"
 	"math/rand"
+	"sort"
 	"strconv"
 	"strings"
+	"sync"
 
 	"rare/pkg/expressions"
 	"rare/pkg/expressions/funclib"
@@ -92,43 +94,81 @@ type outcome struct {
 
 var builders = map[bool]*expressions.KeyBuilder{true: funclib.NewKeyBuilderEx(true), false: funclib.NewKeyBuilderEx(false)}
 
-// evalCall compiles `{f a1 .. an}` with argument i as a constant (pos[i]=="c") or as a match group /
-// named key (pos[i]=="d") and evaluates it.  named: dynamic arguments are read with {kN} instead of {N}.
-func evalCall(f string, args []string, pos []string, opt bool, named bool) (o outcome) {
+// compiled is one compiled expression `{f a1 .. an}`: argument i is a constant of the template
+// (pos[i]=="c") or read from the context as a match group {i} / named key {ki} (pos[i]=="d").
+type compiled struct {
+	kb       *expressions.CompiledKeyBuilder
+	f        string
+	pos      []string
+	named    bool
+	opt      bool
+	Template string
+	Cerr     bool
+	Panic    string
+}
+
+func compileCall(f string, args []string, pos []string, opt bool, named bool) (c *compiled) {
 	var sb strings.Builder
 	sb.WriteString("{" + f)
-	ctx := &expressions.KeyBuilderContextArray{Elements: make([]string, len(args)), Keys: map[string]string{}}
 	for i, a := range args {
 		sb.WriteByte(' ')
 		if pos[i] == "c" {
 			sb.WriteString(constEnc(a))
-			ctx.Elements[i] = "\x01unused"
 		} else if named {
 			fmt.Fprintf(&sb, "{k%d}", i)
-			ctx.Keys["k"+strconv.Itoa(i)] = a
-			ctx.Elements[i] = "\x01unused"
 		} else {
 			fmt.Fprintf(&sb, "{%d}", i)
-			ctx.Elements[i] = a
 		}
 	}
 	sb.WriteByte('}')
-	o.Template = sb.String()
+	c = &compiled{f: f, pos: pos, named: named, opt: opt, Template: sb.String()}
+	defer func() {
+		if r := recover(); r != nil {
+			c.Panic = fmt.Sprint(r)
+		}
+	}()
+	kb, err := builders[opt].Compile(c.Template)
+	c.Cerr = err != nil
+	c.kb = kb
+	if kb == nil {
+		c.Panic = "compile returned no builder"
+	}
+	return
+}
+
+// eval evaluates the compiled expression on the context that holds the dynamic arguments of args
+func (c *compiled) eval(args []string) (o outcome) {
+	o.Template, o.Cerr, o.Panic = c.Template, c.Cerr, c.Panic
+	if c.Panic != "" {
+		return
+	}
+	ctx := &expressions.KeyBuilderContextArray{Elements: make([]string, len(args)), Keys: map[string]string{}}
+	for i, a := range args {
+		if c.pos[i] == "c" || c.named {
+			ctx.Elements[i] = "\x01unused"
+		} else {
+			ctx.Elements[i] = a
+		}
+		if c.pos[i] == "d" && c.named {
+			ctx.Keys["k"+strconv.Itoa(i)] = a
+		}
+	}
 	defer func() {
 		if r := recover(); r != nil {
 			o.Panic = fmt.Sprint(r)
 		}
 	}()
-	kb, err := builders[opt].Compile(o.Template)
-	o.Cerr = err != nil
-	if kb == nil {
-		o.Panic = "compile returned no builder"
-		return
-	}
-	o.Got = kb.BuildKey(ctx)
-	// a compiled expression is reusable: a second evaluation must agree
-	if again := kb.BuildKey(ctx); again != o.Got {
-		o.Panic = fmt.Sprintf("second evaluation differs: %q then %q", o.Got, again)
+	o.Got = c.kb.BuildKey(ctx)
+	return
+}
+
+// evalCall compiles and evaluates one call on a fresh compiled expression
+func evalCall(f string, args []string, pos []string, opt bool, named bool) (o outcome) {
+	c := compileCall(f, args, pos, opt, named)
+	o = c.eval(args)
+	// a second evaluation on the same context must agree
+	if again := c.eval(args); o.Panic == "" && (again.Got != o.Got || again.Panic != "") {
+		o.Panic = fmt.Sprintf("second evaluation differs: %q then %q %s", o.Got, again.Got, again.Panic)
 	}
 	return
 }
@@ -233,6 +273,105 @@ func record(f string, args []string, pos []string, o outcome, opt bool) M {
 	return M{"f": f, "args": a, "pos": pos, "got": vh.BS(o.Got), "cerr": o.Cerr, "panic": o.Panic != "", "opt": opt}
 }
 
+// recWriter writes records for TLC.  The specification's verdict is a function of
+// (f, args, pos, got, cerr, panic): an observation identical to one already written is not written
+// again (histories re-evaluate the same calls many times; only a *different* result is new).
+type recWriter struct {
+	w       *vh.NdWriter
+	seen    map[string]bool
+	Written int
+	Same    int
+}
+
+func newRecWriter(path string) (*recWriter, error) {
+	w, err := vh.NewNdWriter(path)
+	if err != nil {
+		return nil, err
+	}
+	return &recWriter{w: w, seen: map[string]bool{}}, nil
+}
+
+func obsKey(f string, args []string, pos []string, o outcome) string {
+	return f + "\x00" + strings.Join(pos, "") + "\x00" + strconv.Itoa(len(args)) + "\x00" + strings.Join(args, "\x00\x01") +
+		"\x00\x02" + o.Got + "\x00" + strconv.FormatBool(o.Cerr) + strconv.FormatBool(o.Panic != "")
+}
+
+// write records one observation; extra fields (history position, ...) are ignored by the trace spec
+func (rw *recWriter) write(f string, args []string, pos []string, o outcome, opt bool, extra M) {
+	if rw == nil {
+		return
+	}
+	k := obsKey(f, args, pos, o)
+	if rw.seen[k] {
+		rw.Same++
+		return
+	}
+	rw.seen[k] = true
+	rec := record(f, args, pos, o, opt)
+	for key, v := range extra {
+		rec[key] = v
+	}
+	rw.w.Write(rec)
+	rw.Written++
+}
+
+func (rw *recWriter) written() int {
+	if rw == nil {
+		return 0
+	}
+	return rw.Written
+}
+
+func (rw *recWriter) same() int {
+	if rw == nil {
+		return 0
+	}
+	return rw.Same
+}
+
+func (rw *recWriter) Close() {
+	if rw != nil {
+		rw.w.Close()
+	}
+}
+
+func dynIdx(pos []string) []int {
+	var d []int
+	for i, p := range pos {
+		if p == "d" {
+			d = append(d, i)
+		}
+	}
+	return d
+}
+
+// concurrent evaluates one compiled expression from len(ctxs) goroutines, goroutine g on ctxs[g],
+// `rounds` times each, and returns every distinct outcome seen per context.
+func concurrent(c *compiled, ctxs [][]string, rounds int) [][]outcome {
+	res := make([][]outcome, len(ctxs))
+	var wg sync.WaitGroup
+	start := make(chan struct{})
+	for g := range ctxs {
+		wg.Add(1)
+		go func(g int) {
+			defer wg.Done()
+			<-start
+			seen := map[string]bool{}
+			for i := 0; i < rounds; i++ {
+				o := c.eval(ctxs[g])
+				k := o.Got + "\x00" + o.Panic
+				if !seen[k] {
+					seen[k] = true
+					res[g] = append(res[g], o)
+				}
+			}
+		}(g)
+	}
+	close(start)
+	wg.Wait()
+	return res
+}
+
 func patterns(n int) [][]string {
 	out := make([][]string, 0, 1<<n)
 	for m := 0; m < 1<<n; m++ {
@@ -263,26 +402,87 @@ func samePos(a, b []string) bool {
 
 // ---------------------------------------------------------------------------- B1
 
+type entry struct {
+	args []string
+	v    *vector
+}
+
+func expectFor(v *vector, pos []string) expect {
+	for _, a := range v.Alt {
+		if samePos(a.Pos, pos) {
+			return a.E
+		}
+	}
+	return v.Exp
+}
+
+func mismatchClass(e expect, o outcome) string {
+	if o.Panic != "" {
+		return "panic"
+	}
+	if e.Ce == "y" && !o.Cerr || e.Ce == "n" && o.Cerr {
+		return "cerr"
+	}
+	return e.K
+}
+
 func c11Replay(argv []string) error {
 	fs := flag.NewFlagSet("c11-replay", flag.ExitOnError)
 	in := fs.String("in", "", "vectors (ndjson, from ExprScalar_Gen)")
 	out := fs.String("out", "c11-replay.json", "result file")
 	tr := fs.String("trace", "", "also record every evaluation here (ndjson, for ExprScalar_Trace)")
 	fs.Parse(argv)
-	var w *vh.NdWriter
+	var rw *recWriter
 	if *tr != "" {
 		var err error
-		if w, err = vh.NewNdWriter(*tr); err != nil {
+		if rw, err = newRecWriter(*tr); err != nil {
 			return err
 		}
-		defer w.Close()
+		defer rw.Close()
 	}
 	var mism, samples []M
+	nmism := 0
 	runs, vectors, skippedConst, deferred, nontrivial := 0, 0, 0, 0, 0
 	perFunc := map[string]int{}
+	groups := map[string][]*entry{} // calls of one helper with one arity, in generation order
+	var groupOrder []string
+
+	// judge compares one observation with TLC's expectation and records it for TLC
+	judge := func(v *vector, args, pos []string, o outcome, opt bool, extra M) {
+		e := expectFor(v, pos)
+		runs++
+		perFunc[v.F]++
+		if e.K != "any" {
+			nontrivial++
+		}
+		if opt || extra != nil {
+			rw.write(v.F, args, pos, o, opt, extra)
+		}
+		ok, decided := decide(e, o)
+		if !decided {
+			deferred++
+		}
+		if extra == nil && len(samples) < 8 && perFunc[v.F] == 40 && e.K != "any" && len(perFunc)%7 == 1 {
+			samples = append(samples, M{"template": o.Template, "ctx": args, "got": o.Got, "expect": e})
+		}
+		if !ok {
+			nmism++
+			if len(mism) < 3000 {
+				m := M{"f": v.F, "class": mismatchClass(e, o), "template": o.Template, "args": args, "pos": pos,
+					"opt": opt, "got": o.Got, "cerr": o.Cerr, "panic": o.Panic, "expect": e,
+					"expect_text": string(vh.FromInts(e.V))}
+				for k, x := range extra {
+					m[k] = x
+				}
+				mism = append(mism, m)
+			}
+		}
+	}
+
+	// ---- every call on a freshly compiled expression, in every constant/dynamic position pattern
 	err := vh.ReadNd(*in, func(raw json.RawMessage) error {
-		var v vector
-		if err := json.Unmarshal(raw, &v); err != nil {
+		v := &vector{}
+		if err := json.Unmarshal(raw, v); err != nil {
 			return err
 		}
 		vectors++
@@ -290,6 +490,11 @@ func c11Replay(argv []string) error {
 		for i, a := range v.Args {
 			args[i] = string(vh.FromInts(a))
 		}
+		gk := v.F + "/" + strconv.Itoa(len(args))
+		if _, has := groups[gk]; !has {
+			groupOrder = append(groupOrder, gk)
+		}
+		groups[gk] = append(groups[gk], &entry{args, v})
 		for pi, pos := range patterns(len(args)) {
 			usable := true
 			for i, p := range pos {
@@ -301,43 +506,11 @@ func c11Replay(argv []string) error {
 				skippedConst++
 				continue
 			}
-			e := v.Exp
-			for _, a := range v.Alt {
-				if samePos(a.Pos, pos) {
-					e = a.E
-				}
-			}
 			for _, opt := range []bool{true, false} {
 				if !opt && pi%3 != 0 { // the unoptimised compiler on a third of the patterns
 					continue
 				}
-				o := evalCall(v.F, args, pos, opt, false)
-				runs++
-				perFunc[v.F]++
-				if e.K != "any" {
-					nontrivial++
-				}
-				if w != nil && opt {
-					w.Write(record(v.F, args, pos, o, opt))
-				}
-				ok, decided := decide(e, o)
-				if !decided {
-					deferred++
-				}
-				if len(samples) < 8 && perFunc[v.F] == 40 && e.K != "any" && len(perFunc)%7 == 1 {
-					samples = append(samples, M{"template": o.Template, "ctx": args, "got": o.Got, "expect": e})
-				}
-				if !ok {
-					cls := e.K
-					if o.Panic != "" {
-						cls = "panic"
-					} else if e.Ce == "y" && !o.Cerr || e.Ce == "n" && o.Cerr {
-						cls = "cerr"
-					}
-					mism = append(mism, M{"f": v.F, "class": cls, "template": o.Template, "args": args, "pos": pos,
-						"opt": opt, "got": o.Got, "cerr": o.Cerr, "panic": o.Panic, "expect": e,
-						"expect_text": string(vh.FromInts(e.V))})
-				}
+				judge(v, args, pos, evalCall(v.F, args, pos, opt, false), opt, nil)
 			}
 		}
 		return nil
@@ -345,8 +518,108 @@ func c11Replay(argv []string) error {
 	if err != nil {
 		return err
 	}
+
+	// ---- evaluation histories: a compiled expression must be a function of its current context.
+	// The calls of one helper that share the constants of a position pattern are evaluated through ONE
+	// compiled expression: once per dynamic argument with that argument varying fastest (consecutive
+	// contexts differ in exactly that argument), once shuffled, with earlier contexts revisited.
+	sort.Strings(groupOrder)
+	r := vh.NewRand(17)
+	histExprs, histSteps, goRuns := 0, 0, 0
+	for _, gk := range groupOrder {
+		es := groups[gk]
+		f := es[0].v.F
+		n := len(es[0].args)
+		for _, pos := range patterns(n) {
+			dyn := dynIdx(pos)
+			if len(dyn) == 0 {
+				continue
+			}
+			parts := map[string][]*entry{}
+			var partOrder []string
+			for _, e := range es {
+				var key strings.Builder
+				usable := true
+				for i, p := range pos {
+					if p == "c" {
+						usable = usable && constUsable(e.args[i])
+						key.WriteString(e.args[i] + "\x00\x01")
+					}
+				}
+				if !usable {
+					continue
+				}
+				k := key.String()
+				if _, has := parts[k]; !has {
+					partOrder = append(partOrder, k)
+				}
+				parts[k] = append(parts[k], e)
+			}
+			for pn, pk := range partOrder {
+				part := parts[pk]
+				if len(part) < 2 {
+					continue
+				}
+				histExprs++
+				opt := histExprs%3 != 2
+				c := compileCall(f, part[0].args, pos, opt, histExprs%2 == 1)
+				step := 0
+				var prev []string
+				do := func(e *entry) {
+					o := c.eval(e.args)
+					histSteps++
+					judge(e.v, e.args, pos, o, opt, M{"hist": histExprs, "step": step, "prev": prev, "template": c.Template})
+					step++
+					prev = e.args
+				}
+				run := func(order []*entry) {
+					for i, e := range order {
+						do(e)
+						if i%4 == 3 { // revisit earlier contexts
+							do(order[i-2])
+							do(order[0])
+						}
+					}
+				}
+				for _, j := range dyn {
+					order := append([]*entry(nil), part...)
+					sort.SliceStable(order, func(a, b int) bool {
+						for _, i := range dyn {
+							if i != j && order[a].args[i] != order[b].args[i] {
+								return order[a].args[i] < order[b].args[i]
+							}
+						}
+						return order[a].args[j] < order[b].args[j]
+					})
+					run(order)
+				}
+				order := append([]*entry(nil), part...)
+				r.Shuffle(len(order), func(a, b int) { order[a], order[b] = order[b], order[a] })
+				run(order)
+				// the same compiled expression from 2-4 goroutines on different contexts
+				if pn == 0 {
+					g := 2 + r.Intn(3)
+					if g > len(part) {
+						g = len(part)
+					}
+					ctxs := make([][]string, g)
+					for i := range ctxs {
+						ctxs[i] = order[i].args
+					}
+					for i, outs := range concurrent(c, ctxs, 150) {
+						for _, o := range outs {
+							goRuns++
+							judge(order[i].v, ctxs[i], pos, o, opt, M{"hist": histExprs, "goroutines": g, "template": c.Template})
+						}
+					}
+				}
+			}
+		}
+	}
 	vh.WriteJSON(*out, M{"vectors": vectors, "runs": runs, "distinct_nontrivial": nontrivial, "skipped_const": skippedConst,
-		"deferred_to_tlc": deferred, "per_func": perFunc, "mismatches": mism, "samples": samples})
+		"deferred_to_tlc": deferred, "per_func": perFunc, "mismatches": mism, "mismatch_count": nmism, "samples": samples,
+		"history_expressions": histExprs, "history_steps": histSteps, "goroutine_observations": goRuns,
+		"records_written": rw.written(), "records_identical": rw.same()})
 	return nil
 }
 
@@ -736,27 +1009,34 @@ func init() {
 
 // ---------------------------------------------------------------------------- B2
 
+// c11Trace records random evaluation HISTORIES: every compiled expression is evaluated on a sequence of
+// at least 6 contexts; consecutive contexts differ in exactly one dynamic argument (each dynamic index
+// in turn), with earlier contexts revisited and values that are errors for the helper mixed in.  Every
+// step is an ordinary record; a sample of expressions is also evaluated from 2-4 goroutines.
 func c11Trace(argv []string) error {
 	fs := flag.NewFlagSet("c11-trace", flag.ExitOnError)
 	out := fs.String("out", "c11-trace.ndjson", "trace file")
-	n := fs.Int("n", 10000, "number of calls")
+	n := fs.Int("n", 10000, "number of evaluations")
+	stats := fs.String("stats", "", "write counters here (json)")
 	fs.Parse(argv)
-	w, err := vh.NewNdWriter(*out)
+	rw, err := newRecWriter(*out)
 	if err != nil {
 		return err
 	}
-	defer w.Close()
+	defer rw.Close()
 	r := rnd{vh.NewRand(11)}
-	for i := 0; i < *n; i++ {
-		f := genOrder[i%len(genOrder)]
+	steps, exprs, goObs, goExprs := 0, 0, 0, 0
+	for steps < *n {
+		f := genOrder[exprs%len(genOrder)]
+		exprs++
 		args := generators[f](r)
 		pos := make([]string, len(args))
-		mode := r.Intn(4) // all dynamic, all constant, mixed, mixed
+		mode := r.Intn(5) // all dynamic (twice as likely), all constant, mixed, mixed
 		for j := range pos {
 			switch {
-			case mode == 0:
+			case mode <= 1:
 				pos[j] = "d"
-			case mode == 1:
+			case mode == 2:
 				pos[j] = "c"
 			default:
 				pos[j] = r.pick("c", "d")
@@ -774,8 +1054,54 @@ func c11Trace(argv []string) error {
 			}
 		}
 		opt := r.Intn(4) != 0
-		o := evalCall(f, args, pos, opt, r.Intn(3) == 0)
-		w.Write(record(f, args, pos, o, opt))
+		c := compileCall(f, args, pos, opt, r.Intn(3) == 0)
+		dyn := dynIdx(pos)
+		cur := args
+		visited := [][]string{cur}
+		o := c.eval(cur)
+		steps++
+		rw.write(f, cur, pos, o, opt, M{"hist": exprs, "step": 0})
+		if len(dyn) == 0 {
+			continue
+		}
+		length := 6 + r.Intn(5)
+		for st := 1; st < length; st++ {
+			if r.Intn(5) == 0 && len(visited) > 1 {
+				cur = visited[r.Intn(len(visited))] // an earlier context again
+			} else {
+				j := dyn[(st-1)%len(dyn)]
+				val := r.noise() // often an error for the helper
+				if r.Intn(4) != 0 {
+					if fresh := generators[f](r); j < len(fresh) {
+						val = fresh[j]
+					}
+				}
+				next := append([]string(nil), cur...)
+				next[j] = val
+				cur = next
+				visited = append(visited, cur)
+			}
+			o := c.eval(cur)
+			steps++
+			rw.write(f, cur, pos, o, opt, M{"hist": exprs, "step": st})
+		}
+		if exprs%6 == 0 && len(visited) >= 2 {
+			g := 2 + r.Intn(3)
+			if g > len(visited) {
+				g = len(visited)
+			}
+			goExprs++
+			for i, outs := range concurrent(c, visited[:g], 150) {
+				for _, o := range outs {
+					goObs++
+					rw.write(f, visited[i], pos, o, opt, M{"hist": exprs, "goroutines": g})
+				}
+			}
+		}
+	}
+	if *stats != "" {
+		vh.WriteJSON(*stats, M{"evaluations": steps, "expressions": exprs, "goroutine_expressions": goExprs,
+			"goroutine_observations": goObs, "records_written": rw.Written, "records_identical": rw.Same})
 	}
 	return nil
 }
